@@ -379,7 +379,28 @@ def gen(rng, idx, tier):
         pool = used or names
         skip = [rng.choice(pool)]
     filt = rng.choice([None, None, "DecomposeTransformedComponentsFilter", "PropagateAnchorsFilter"])
-    return {"func": func, "ds": ds, "opts": opts, "skip": skip, "filter": filt,
+    filter_via = "argument"
+    if filt and rng.random() < 0.5:
+        # the same filter declared in every master's lib (what glyphsLib writes): equal but
+        # distinct filter objects per master, which must still act as ONE joint filter
+        filter_via = "lib"
+        entry = {"name": filt[0].lower() + filt[1:-len("Filter")], "pre": True}
+        for u in ds["ufos"]:
+            u.setdefault("lib", {})["com.github.googlei18n.ufo2ft.filters"] = [dict(entry)]
+        if filt.startswith("DecomposeTransformed") and len(ds["ufos"]) >= 2:
+            # a composite whose (first) 2x2 part is the identity in all masters but one
+            names0 = [g["name"] for g in ds["ufos"][0]["glyphs"]
+                      if g["components"] and not g["contours"]]
+            if names0:
+                tgt = rng.choice(names0)
+                k = rng.randrange(len(ds["ufos"]))
+                for ui, u in enumerate(ds["ufos"]):
+                    for gl in [u["glyphs"]] + list((u.get("layers") or {}).values()):
+                        for g in gl:
+                            if g["name"] == tgt and g["components"]:
+                                t = g["components"][0]["t"]
+                                g["components"][0]["t"] = ([0.75, 0, 0, 1] if ui == k else [1, 0, 0, 1]) + list(t[4:])
+    return {"func": func, "ds": ds, "opts": opts, "skip": skip, "filter": filt, "filter_via": filter_via,
             "sparse_omits_axis": sparse_omits_axis, "stratum": stratum, "support_ufo": support, "lib": rng.choice(["defcon", "ufoLib2"])}
 
 
@@ -446,9 +467,11 @@ def run(case):
     doc, fonts = build_designspace(ds, case["lib"])
     kw = {k: v for k, v in case["opts"].items() if not k.startswith("_")}
     kw["useProductionNames"] = False
-    if case["filter"]:
+    if case["filter"] and case.get("filter_via", "argument") == "argument":
         import ufo2ft.filters as F
         kw["filters"] = [getattr(F, case["filter"])()]
+    elif case["filter"]:
+        bump("filter_declared_in_every_master_lib")
     if case["skip"]:
         if func == "compileInterpolatableTTFs":
             kw["skipExportGlyphs"] = list(case["skip"])
